@@ -24,7 +24,8 @@ CLAIMED = {
               'table has get_dist_slot(e) + k entries with e >= dict_size - 1, k >= 1 (monotonicity of get_dist_slot assumed). '
               'FULL-TRACKS-POS: every LZDecoder method that advances the write position compares `full` with the new position '
               'before returning (one checked exception: the wrap-around branch of repeat, dictionary full). MOVE-KEEPS-HISTORY '
-              '(see C15).',
+              '(see C15). DIST-WINDOW: all seven comparisons of a candidate distance with cyclic_size in HC4/BT4 accept strictly '
+              'below it. RESET-CONTEXT-BYTE: LZDecoder::reset clears exactly the cell get_byte(0) reads at position 0.',
               'match finder/window invariants (matches only inside the retained window), look-ahead bookkeeping, the optimal '
               'parser\'s prices and node links, range-coder carry and flush length, 31-bit renormalisation, arithmetic offsets of symbols (len - 2, slot '
               'bases): all depend on run-time values.'),
@@ -83,7 +84,9 @@ CLAIMED = {
               'LZIPReaderMT move their position down by >= 1 in every round), INDEX-GUARD (all 13 element accesses with an '
               'input-derived index into an input-sized vector in the reader files are dominated by a comparison with that '
               'vector\'s length, index not reassigned in between), OUTPUT-BUFFERED (no worker drains a decoder into a Vec: '
-              'reports the two MT reader workers as known findings).',
+              'reports the two MT reader workers as known findings), COUNTER-WIDTH (counters advanced once per input byte in '
+              'reader loops are 64 bits wide or bounded by a constant guard), FRESH-LIMIT (see C07), ASM-DISPATCH (the bytes left '
+              'are computed with a saturating subtraction).',
               'index bounds inside the LZ window and BCJ2 state machine, loop termination, checked BCJ address arithmetic on data '
               'bytes (inside loops).'),
     'C07': _c('static: dominance rule on impl Read::read + I/O count classification',
@@ -91,14 +94,16 @@ CLAIMED = {
               '(transforming writers never report a partial count); PENDING-PAIR (every absolute move of the LZ encoder read limit '
               're-processes the pending bytes on all paths) and LOOKAHEAD-TWIN (one look-ahead reserve: limit formula, its guard, '
               'the window-move trigger and the buffer-size formula agree); FINDER-LOOKAHEAD (see C01: what a flush in the middle '
-              'of the data may let into the match finder); PENDING-RESET-ORDER (see C01).',
+              'of the data may let into the match finder); PENDING-RESET-ORDER (see C01); FRESH-LIMIT (the decode limit of '
+              'LZMAReader is recomputed in every round of its loop); MASK-AGEING-TWIN (see C11).',
               'numeric relations of the LZ window beyond the two structural rules. TAIL-FORWARD (a transforming writer never forwards '
               'the tail its transform did not process) reports the BCJWriter defect as a known finding.'),
     'C08': _c('static: ordering/guard rules on the four MT pipelines + control-byte value sets',
               'SEQ-ORDER (hand-out only on seq == next, reorder map keyed by seq, one increment per hand-out/dispatch), CTRL-SETS '
               '(MT cutter cuts exactly at the ST reader\'s dictionary-reset values, same classes and header lengths), '
               'FRESH-CODEC, MT-TERMINATOR, ERR-SWALLOW-MT, WORKER-DRAIN, STAGING-APPEND, TRAILING-SKIP (the LZIP member scan '
-              'probes for the end of the last member, so trailing data is skipped as the single-threaded reader skips it).',
+              'probes for the end of the last member, so trailing data is skipped as the single-threaded reader skips it), '
+              'ERRCHK-BEFORE-HANDOUT (see C09).',
               'byte equality of outputs (needs C01), behaviour under interleavings beyond the ordering discipline.'),
     'C09': _c('static: all-paths rule on worker CFGs + dominance of error checks',
               'WORKER-NOTIFY (every path from a successful steal to an exit posts to the result channel), ERRCHK-BEFORE-BLOCK '
@@ -108,7 +113,8 @@ CLAIMED = {
               'that unwinds while holding a unit posts to the result channel through a drop guard), WRITE-LOOP-PROGRESS (a write-loop '
               'iteration that copies nothing still reaches the dispatch call; the room left in the unit is measured inside the loop), '
               'SCAN-PROGRESS (see C06), ERR-STATE-ENTRY (write, flush and finish of the MT writers test the error state before '
-              'any exit that can carry Ok).',
+              'any exit that can carry Ok), ERRCHK-BEFORE-HANDOUT (a reader coordinator looks at the error store before its '
+              'reorder buffer in every round and hands nothing out in the error state).',
               'progress of back-pressure loops, value relations between sequence counters.'),
     'C10': _c('static: lock-set analysis, condvar predicate discipline, call-graph effects',
               'CV-LOCK, CV-NOTIFY (every predicate write is followed by a notify on all paths), LOCK-SCOPE, DROP-CLOSE, SPAWN-BOUND '
@@ -160,7 +166,8 @@ CLAIMED = {
               'EXACT-READ (only read_exact of fixed/sliced lengths, 1-byte reads or pass-through), MULTISTREAM-GUARD, END-NO-PULL '
               '(typestate: after the end flag is set no call that can pull from the source is reachable in that call), END-FLAG-SET '
               '(after index and footer every Ok return that is not "further stream found" sets the end flag), NO-READAHEAD (no '
-              'BufReader anywhere between a reader of the crate and the caller\'s source).',
+              'BufReader anywhere between a reader of the crate and the caller\'s source), NORMALIZE-AFTER-MARKER (the end-marker '
+              'path of LZMAReader performs the range-coder normalisation that decode() skips there).',
               'whether the range decoder\'s lazy normalisation pulls exactly as many bytes as the encoder flushed.'),
     'C17': _c('static: unit inference {bytes, KiB} + dominance + interval analysis',
               'KIB-UNITS over the estimator call tree, LIMIT-BEFORE-ALLOC (limit test dominates every allocating call and is computed '
